@@ -110,10 +110,30 @@ func runSchedSel(c *runCtx, bin, job string, scenarios []string, nshards, second
 }
 
 func runSched(c *runCtx, bin, job string, scenarios []string, bounds []int, nshards, seconds int) ([]*scnSummary, []violation, [][]string, error) {
+	return runSchedB(c, bin, job, scenarios, func(string) []int { return bounds }, nshards, seconds)
+}
+
+// runSchedB is runSched with the preemption bounds chosen per scenario.
+func runSchedB(c *runCtx, bin, job string, scenarios []string, boundsFor func(name string) []int, nshards, seconds int) ([]*scnSummary, []violation, [][]string, error) {
 	var jobsL []schedJob
-	for _, b := range bounds {
+	maxB := 0
+	for _, name := range scenarios {
+		for _, b := range boundsFor(name) {
+			if b > maxB {
+				maxB = b
+			}
+		}
+	}
+	for b := 0; b <= maxB; b++ {
 		for si, name := range scenarios {
 			if name == "" {
+				continue
+			}
+			has := false
+			for _, x := range boundsFor(name) {
+				has = has || x == b
+			}
+			if !has {
 				continue
 			}
 			for sh := 0; sh < nshards; sh++ {
@@ -137,7 +157,7 @@ func runSched(c *runCtx, bin, job string, scenarios []string, bounds []int, nsha
 			dir := fmt.Sprintf("%s/s%d", c.Scratch, i)
 			os.MkdirAll(dir, 0o755)
 			defer os.RemoveAll(dir)
-			cmd.Env = append(os.Environ(), "VH_SCRATCH="+dir, "GOMAXPROCS=2")
+			cmd.Env = append(os.Environ(), "VH_SCRATCH="+dir, "GOMAXPROCS=2", "VH_OVERLAYS="+strings.Join(c.Overlays, "|"))
 			var eb strings.Builder
 			cmd.Stderr = &eb
 			done := make(chan struct{})
